@@ -251,7 +251,10 @@ func NewTypecast(scope *types.Scope, imports util.ImportNames, t types.Type, inn
 	case *types.Named:
 		// If the type is defined within the current package (or in no package, like "error").
 		// A local object that merely has the same name as an imported type does not count.
-		if typ.Obj().Pkg() == nil || scope.Lookup(typ.Obj().Name()) == typ.Obj() {
+		if typ.TypeArgs().Len() > 0 {
+			// An instantiated generic type is written with its type arguments.
+			expr = imports.TypeName(typ)
+		} else if typ.Obj().Pkg() == nil || scope.Lookup(typ.Obj().Name()) == typ.Obj() {
 			expr = typ.Obj().Name()
 		} else if pkgName, ok := imports.LookupName(typ.Obj().Pkg().Path()); ok {
 			expr = fmt.Sprintf("%v.%v", pkgName, typ.Obj().Name())
